@@ -65,3 +65,37 @@ def pretty_fnode2(value, ctx):
 def pretty_reprleaf(value, ctx, trailing_comment=None):
     # the fallback document is the bare repr string; a trailing comment is not rendered on that path
     return value.text
+
+
+class Flaky:
+    """prints as FLAKY<k>; while Flaky.broken is set its printer returns a non-document, so pformat raises"""
+    broken = False
+
+    def __init__(self, k):
+        self.k = k
+
+    def __repr__(self):
+        return 'Flaky(%r)' % (self.k,)
+
+
+@register_pretty(Flaky)
+def pretty_flaky(value, ctx):
+    if Flaky.broken:
+        return 5
+    return 'FLAKY<%s>' % (value.k,)
+
+
+class OpaqueObj:
+    """no printer registered; repr is not a Python expression"""
+
+    def __init__(self, k):
+        self.k = k
+
+    def __repr__(self):
+        return '<opaque %s>' % (self.k,)
+
+    def __eq__(self, other):
+        return type(other) is OpaqueObj and other.k == self.k
+
+    def __hash__(self):
+        return hash(self.k)
